@@ -136,7 +136,7 @@ func runC14(r *mon.Run) {
 			// the caller overwrites every value the key objects hand out, then signs
 			for _, b := range [][]byte{sk.Bytes(), sk.PublicKey().Bytes(), sk.Scalar().Bytes(), sk.PublicKey().Point().CompressedBytes()} {
 				for j := range b {
-					b[j] ^= 0xc3
+					b[j] += 0xc3
 				}
 			}
 			hp := sk.PublicKey().Point()
